@@ -141,6 +141,38 @@ func rulesC15(w *World, r *Report) {
 			}
 		}
 		r.Check(ok, "C15.R2", "Open:size-invariant", w.pos(open.Pos()), "a file shorter than its header describes is rejected", "Open does not reject a file shorter than ExpectedFileSize(): raw dumps and fetches then allocate numberOfPoints records for a truncated file")
+		// nothing is sized by what the header claims before that test: a call of Open that is handed a header-derived
+		// size comes after the passing edge of the size test (error texts excepted)
+		var testAt ssa.Instruction
+		for _, fc := range failConditions(w, open) {
+			if fc.Op == "<" && strings.Contains(fc.L, "Size()") && strings.Contains(fc.R, "ExpectedFileSize(") {
+				testAt = fc.At
+			}
+		}
+		bad := ""
+		n := 0
+		for _, c := range callsIn(open) {
+			sc := c.Common().StaticCallee()
+			if sc == nil || (sc.Pkg != nil && sc.Pkg.Pkg.Path() == "fmt") || sc == fn(w.Lib, "Header.ExpectedFileSize") {
+				continue
+			}
+			claimed := false
+			for _, a := range c.Common().Args {
+				if strings.Contains(newExprCtx(w).expr(a), "ExpectedFileSize(") {
+					claimed = true
+				}
+			}
+			if !claimed {
+				continue
+			}
+			n++
+			if testAt == nil || !testAt.Block().Dominates(c.Block()) || testAt.Block() == c.Block() {
+				if bad == "" {
+					bad = funcName(sc) + " at " + w.instrPos(c) + " is given the size the header claims before the file was found to be that long"
+				}
+			}
+		}
+		r.Check(bad == "", "C15.R2", "Open:claimed-size-after-test", w.pos(open.Pos()), fmt.Sprintf("%d calls take a header-derived size, each after the size test", n), "Open: "+bad+": reading or allocating by a claimed size on a truncated file panics or over-allocates")
 	}
 	if rh := need(w, r, "C15.R2", w.Lib, "Whisper.readHeader"); rh != nil {
 		ok := false
